@@ -86,6 +86,8 @@ def base_traces(versions, for_c19=False):
                                                            ("VTe", u32(1, 0)),
                                                            # a task type with a long label (below the 512 characters the emulator allows)
                                                            ("VYc", b"", u32(2) + b"L" * 480 + b"\0"), ("VTc", u32(2, 2)), ("VTx", u32(2, 0)), ("VTe", u32(2, 0)),
+                                                           # ... and one whose label would mean something to printf
+                                                           ("VYc", b"", u32(3) + b"100%s done %n%5$s\0"),
                                                            ("OHe", b""), ("OF[", b""), ("OF]", b"")], 101)},
         }
         # T5 (C19 only, the emulator refuses it until it is sorted): an unordered region whose events, one of them a jumbo event,
